@@ -68,10 +68,17 @@ Inductive case :=
    satisfies the conditions of the racing theorems (ProtoRace.v) *)
 | CHyp (ops : list opk) (evs : list N) (linked_ok : bool).
 
+(* THE switch between the two versions of DeleteConfig's finalize: true = the tree with the repair cd27b43 (only the
+   entry marked deleted is removed), false = the code before it (ConfigProto.do_step_old: removeDatabase on whatever
+   entry the database has; C15_Refuted.acked_lost_to_delete_finalize is about that code) *)
+Definition delete_finalize_repaired : bool := true.
+Definition model_run (ops : list opk) (evs : list event) : world :=
+  if delete_finalize_repaired then run ops evs else run_old ops evs.
+
 Definition check (c : case) : bool :=
   match c with
   | CRun ops evs results fin =>
-      let w := run ops (map ev evs) in
+      let w := model_run ops (map ev evs) in
       list_eqb (option_eqb res_eqb) (map result_of (w_nodes w)) results
       && Bool.eqb (match s_reg (w_st w) with Some _ => true | None => false end) (f_reg_exists fin)
       && list_eqb (pair_eqb rentry_eqb) (match s_reg (w_st w) with Some (_, R) => R | None => [] end) (sort_by_key (f_reg fin))
